@@ -30,6 +30,11 @@ def run(shard, tier, seed):
     res = Result()
     n = 60 if tier == "quick" else 600
     nb = (6, 14) if tier == "quick" else (6, 30)
+    if shard["i"] % 8 == 7:
+        # very long histories: branches that start more than 32 blocks below the head (bookkeeping that is pruned, cached or
+        # summarised by depth only shows there)
+        return chainexec.drive(res, env.subseed(seed, ID, shard["i"]), n // 6, tier, FOCUS, CATS, ID, n_blocks=(40, 48), p_mut=0.4,
+                               p_fork=0.1, p_deep_fork=0.35, deep_min=33, p_tx=0.8, p_restart=0.0)
     if shard["i"] % 4 == 3:
         # long histories whose later candidates (honest and broken) sit on parents far below the head
         return chainexec.drive(res, env.subseed(seed, ID, shard["i"]), n // 2, tier, FOCUS, CATS, ID, n_blocks=(18, 26 if tier == "quick" else 40), p_mut=0.5,
